@@ -10,7 +10,7 @@ from ..base import Result
 from ..snap import is_library_domain_error, safe_call
 
 ID = "C14"
-RULE = ("Fitted KNNSupervisedOPF / UnsupervisedOPF models (C13's generators; k ranges up to n-1; safe metrics and all symmetric dissimilarities) and "
+RULE = ("Fitted KNNSupervisedOPF / UnsupervisedOPF models (C13's generators; k ranges up to n-1; safe metrics and every non-negative metric incl. the asymmetric ones; on-the-fly and pre-computed matrices with shuffled index subsets) and "
         "query batches of training copies, perturbations, midpoints, far points, lattice ties, predicted one per call and in one batch. Reference: "
         "distances from x to ALL training samples in the code's argument order; admissible k-nearest sets under ties at the k-th distance (closed form, "
         "no enumeration); density of x from the k smallest distances with the stored constant/min/max (divisors k and k+1 and a 1e-9 relative band "
@@ -27,13 +27,13 @@ BUDGET = {
     "thorough": {"cases": 40000, "seconds": 540, "shards": 16},
 }
 REQUIRED_OBS = ["queries_judged:knn", "queries_judged:unsup", "tie_at_kth", "query_is_training_copy", "density_between_costs", "k>=2_queries",
-                "multiple_admissible"]
+                "multiple_admissible", "pre_computed_cases", "asymmetric_metric_cases"]
 MIN_NONTRIVIAL = 100
 
 
 def generate(rng, tier, idx):
-    metrics = gen.SAFE_METRICS if idx % 3 else gen.SYMMETRIC_DISSIMILARITIES
-    c = knncase.gen_knn_case(rng, tier, model=("knn" if idx % 2 else "unsup"), metrics=metrics)
+    metrics = gen.SAFE_METRICS if idx % 3 else knncase.NONNEG_METRICS        # incl. asymmetric neyman / pearson / KL / K-divergence
+    c = knncase.gen_knn_case(rng, tier, model=("knn" if idx % 2 else "unsup"), metrics=metrics, allow_pre=True)
     c["propagate"] = bool(rng.random() < 0.5)
     return c
 
@@ -107,23 +107,29 @@ def check(case):
         return res.reject("empty-density-range")
     if kind == "unsup" and case.get("propagate"):
         m.propagate_labels()
-    fn = m.distance_fn
-    feats = [np.array(nd.features, dtype=float) for nd in sg.nodes]
+    pre = case.get("pre")
+    IQ = np.array(pre["IQ"], dtype=int) if pre else None
+    if pre:
+        res.see("pre_computed_cases")
+    from ..metrics_table import T as _T
+    if "s" not in _T[case["metric"]][2] and not pre:
+        res.see("asymmetric_metric_cases")
+    DQ = knncase.query_distances(case, m, Q, IQ)
     single = []
     for x in range(len(Q)):
-        c = safe_call(m.predict, Q[x:x + 1].copy())
+        c = knncase.predict(case, m, Q[x:x + 1], None if IQ is None else IQ[x:x + 1])
         if not c.ok:
             res.violate("exception", f"C14/exception/predict/{kind}/{type(c.exc).__name__}", f"predict raised at {c.where}: {str(c.exc)[:200]}")
             return res
         single.append((int(c.value[0][0]), int(c.value[1][0])) if kind == "unsup" else int(c.value[0]))
-    c = safe_call(m.predict, Q.copy())
+    c = knncase.predict(case, m, Q, IQ)
     if not c.ok:
         res.violate("exception", f"C14/exception/predict/{kind}/{type(c.exc).__name__}", f"batch predict raised at {c.where}: {str(c.exc)[:200]}")
         return res
     batch = list(zip(map(int, c.value[0]), map(int, c.value[1]))) if kind == "unsup" else [int(v) for v in c.value]
     nontrivial = False
     for x in range(len(Q)):
-        dq = np.array([float(fn(Q[x].copy(), feats[t].copy())) for t in range(n)])
+        dq = DQ[x]
         if not np.all(np.isfinite(dq)):
             res.see("query_skipped_nonfinite")
             continue
